@@ -97,3 +97,18 @@ Theorem r2_shape_tied (S : sums) (m c num den res tot d : Q) :
   (gen_ss_res_scale (sN S) (sX S) (sY S) (sXY S) (sXX S) (sYY S) m c == sN S /\ gen_r2_n res res res tot == res /\ gen_r2_d res res res tot == tot /\
    gen_r2_final d == 1 - d).
 Proof. split; [apply tie_go_gain_div|apply tie_r2]. Qed.
+
+(* compare.get_block_sums: per-pixel terms of the seven block sums (Stats.Compare.block_sums), joint mask, accumulation over blocks *)
+Theorem compare_block_sums_tied (b : list px) :
+  block_sums b = {| cX := qsum (fun p => gen_cmp_term_src_sum (fst p) (snd p)) b; cY := qsum (fun p => gen_cmp_term_ref_sum (fst p) (snd p)) b;
+                    cXX := qsum (fun p => gen_cmp_term_src2_sum (fst p) (snd p)) b; cYY := qsum (fun p => gen_cmp_term_ref2_sum (fst p) (snd p)) b;
+                    cXY := qsum (fun p => gen_cmp_term_src_ref_sum (fst p) (snd p)) b;
+                    cRes := qsum (fun p => gen_cmp_term_res2_sum (fst p) (snd p)) b; cN := inject_Z (Z.of_nat (List.length b)) |} /\
+  gen_cmp_joint_mask_ok = true /\ gen_cmp_accumulate_ok = true.
+Proof. repeat split; reflexivity. Qed.
+
+(* stats.get_block_sums: terms of sum and sum of squares (Stats.Param.tile_accum), the strict in-paint comparison, the band rule, the fold *)
+Theorem stats_block_sums_tied (thresh : option Q) (tile : list Q) :
+  a_sum (tile_accum thresh tile) = qsum gen_st_term_sum tile /\ a_sum2 (tile_accum thresh tile) = qsum gen_st_term_sum2 tile /\
+  gen_st_block_ok = true /\ gen_st_inpaint_is_strictly_below = true /\ gen_st_inpaint_bands_ok = true /\ gen_st_accumulate_ok = true.
+Proof. repeat split; reflexivity. Qed.
